@@ -13,20 +13,6 @@ Local Arguments N.sub : simpl never.
 Ltac Zify.zify_post_hook ::= Z.div_mod_to_equations.
 
 (** * Well-formed trees *)
-Definition scalar (c : N) : bool := (c <? 1114112) && negb (is_surrogate c).
-
-Fixpoint wf (j : json) : bool :=
-  match j with
-  | JNull | JBool _ => true
-  | JNum (JInt _ _) => true
-  | JNum (JOther _) => false
-  | JStr s => forallb scalar s
-  | JArr xs => (fix go (l : list json) : bool := match l with [] => true | x :: r => wf x && go r end) xs
-  | JObj kvs =>
-      (fix go (l : list (str * json)) : bool :=
-         match l with [] => true | (k, v) :: r => forallb scalar k && wf v && go r end) kvs
-  end.
-
 Lemma wf_arr xs : wf (JArr xs) = forallb wf xs.
 Proof. induction xs as [|x r IH]; [reflexivity|]. cbn [forallb]. rewrite <- IH. reflexivity. Qed.
 Lemma wf_obj kvs : wf (JObj kvs) = forallb (fun kv => forallb scalar (fst kv) && wf (snd kv)) kvs.
